@@ -1,4 +1,5 @@
 import CwMt.Model.Registry
+import CwMt.Model.Executor
 import CwMt.Model.Staking
 import CwMt.Driver.Util
 /-
@@ -705,13 +706,10 @@ def stepWasm (st : WState) (line : String) : WState × String :=
       match (a 1).toNat?, parseCoins (a 4), pdec (a 5), (if a 7 == "~" then some none else (unhex (a 7)).map some) with
       | some code, some funds, some label, some salt =>
         let admin := if a 6 == "~" then none else some (real (a 6))
-        let m := Msg.wasmInstantiate admin code (strBytes ("\"" ++ text ++ "\"")) funds label salt
-        let (r, ch', tr) := App.execute cfg app.block fuelMax app.ch (real (a 2)) m
+        let (r, ch', tr) := Executor.instantiateContract cfg app.block fuelMax app.ch (real (a 2)) code
+          (strBytes ("\"" ++ text ++ "\"")) funds label admin salt
         let out := match r with
-          | .ok resp =>
-            match decodeInstantiateResponse (resp.data.getD []) with
-            | some (addr, _) => "ok " ++ bytesStr addr
-            | none => "err"
+          | .ok addr => "ok " ++ bytesStr addr
           | .err => "err"
           | .panic => "panic"
           | .outOfFuel => "out-of-fuel"
@@ -721,33 +719,22 @@ def stepWasm (st : WState) (line : String) : WState × String :=
       let text := (items[3]?.map Sx.print).getD ""
       match parseCoins (a 4) with
       | some funds =>
-        let m := Msg.wasmExecute (real (a 2)) (strBytes ("\"" ++ text ++ "\"")) funds
-        let (r, ch', tr) := App.execute cfg app.block fuelMax app.ch (real (a 1)) m
-        let out := match r with
-          | .ok resp =>
-            match resp.data with
-            | none => "ok " ++ fmtResp resp
-            | some d =>
-              match decodeExecuteResponse d with
-              | some inner => "ok " ++ fmtResp { resp with data := if inner.isEmpty then none else some inner }
-              | none => "panic"
-          | .err => "err"
-          | .panic => "panic"
-          | .outOfFuel => "out-of-fuel"
-        (setApp st (addTrace { app with ch := ch' } tr), out)
+        let (r, ch', tr) := Executor.executeContract cfg app.block fuelMax app.ch (real (a 1)) (real (a 2))
+          (strBytes ("\"" ++ text ++ "\"")) funds
+        (setApp st (addTrace { app with ch := ch' } tr), outcomeStr r fun r => "ok " ++ fmtResp r)
       | none => (st, "bad-op")
     | "h-mig" =>
       let text := (items[4]?.map Sx.print).getD ""
       match (a 3).toNat? with
       | some code =>
-        let m := Msg.wasmMigrate (real (a 2)) code (strBytes ("\"" ++ text ++ "\""))
-        let (r, ch', tr) := App.execute cfg app.block fuelMax app.ch (real (a 1)) m
+        let (r, ch', tr) := Executor.migrateContract cfg app.block fuelMax app.ch (real (a 1)) (real (a 2))
+          (strBytes ("\"" ++ text ++ "\"")) code
         (setApp st (addTrace { app with ch := ch' } tr), outcomeStr r fun r => "ok " ++ fmtResp r)
       | none => (st, "bad-op")
     | "h-send" =>
       match parseCoins (a 3) with
       | some cs =>
-        let (r, ch', tr) := App.execute cfg app.block fuelMax app.ch (real (a 1)) (.bankSend (real (a 2)) cs)
+        let (r, ch', tr) := Executor.sendTokens cfg app.block fuelMax app.ch (real (a 1)) (real (a 2)) cs
         (setApp st (addTrace { app with ch := ch' } tr), outcomeStr r fun r => "ok " ++ fmtResp r)
       | none => (st, "bad-op")
     | "q-bal" =>
